@@ -13,6 +13,11 @@ func e0Profile(prop string, checks ...string) *Profile {
 }
 
 var Props = map[string]PropRunner{
+	"C20": RunE3,
+	"C09": RunC09,
+	"C10": RunC10,
+	"C11": RunC11,
+	"C12": RunC12,
 	"C01": func(r *Run) { RunE0(r, e0Profile("C01", "C01")) },
 	"C02": func(r *Run) { RunE0(r, e0Profile("C02", "C02")) },
 	"C03": func(r *Run) { RunE0(r, e0Profile("C03", "C03")) },
